@@ -11,8 +11,11 @@ RULE = ('case = (boolean table with named objects/attributes, algorithm in {defa
         'get_concept_new_extent_i/_intent_i, the name versions, ancestors(i) of every concept and the default diagram label '
         'of every node are collected; the Lean checker holdsC04 rebuilds the table from those labels and ancestor sets and '
         'compares it with the original; exhaustive over all tables of the tier scope x 2 algorithms, then seeded '
-        'random/structured tables (duplicate rows/columns included) up to 7x7; non-trivial = table neither all-true nor '
-        'all-false; distinct = distinct (table, algorithm)')
+        'random/structured tables (duplicate rows/columns included) up to 7x7, tall tables with 11-14 objects (two-digit '
+        'object indexes in the sort key of the re-sorted Lindig lattice), and HISTORIES: the lattice is built from [top, bottom] '
+        'by add() in a seeded order, or from_context followed by remove()/del and add() of inner concepts, with label calls '
+        '(index/name getters, the diagram label function) in between; the labels of the final complete lattice are judged; '
+        'non-trivial = table neither all-true nor all-false; distinct = distinct (table, algorithm, history)')
 EXHAUSTIVE = {'quick': 'all tables n,m<=3 (682) x {Lindig, CbO}, every concept',
               'thorough': 'all tables with n*m<=12, n,m<=4 (9418) x {Lindig, CbO}, every concept'}
 EXPLANATION = ('the Lean checker Spec.holdsC04 judges the implementation\'s own labels (index and name versions) and ancestor sets: '
@@ -45,6 +48,18 @@ def _corpus():
             continue
 
 
+def _tall_table(rng):
+    """11-14 objects; two attribute extents of equal size that differ first in a one-digit vs. a two-digit index."""
+    n, m = rng.randint(11, 14), rng.randint(2, 4)
+    x, y = rng.randint(2, 9), rng.randint(10, n - 1)
+    common = [g for g in (0, 1) if rng.random() < 0.5]
+    rows = [[int(rng.random() < 0.3) for _ in range(m)] for _ in range(n)]
+    for g in range(n):
+        rows[g][0] = int(g in common or g == x)
+        rows[g][1] = int(g in common or g == y)
+    return rows
+
+
 def gen(tier, seed, boost=False):
     rng = random.Random(seed * 1000003 + 404)
     yield from _corpus()
@@ -64,6 +79,30 @@ def gen(tier, seed, boost=False):
         rows = G.random_table(rng, 7, 7)
         for algo in ALGOS:
             yield dict(stream='random', rows=rows, algo=algo)
+    # tall tables (11-14 objects): sort_concepts breaks ties by the comma-joined decimal STRING of the extent, which
+    # differs from numeric order only once an object index has two digits ("10,11" < "2,5"); the Lindig result is
+    # re-sorted and all caches re-indexed, so the labels depend on both orders agreeing
+    for _ in range((80 if tier == 'quick' else 800) * (3 if boost else 1)):
+        rows = _tall_table(rng) if rng.random() < 0.6 else G.random_table(rng, 14, 4, nmin=11)
+        for algo in ALGOS:
+            yield dict(stream='random-tall', rows=rows, algo=algo)
+    # histories: the labels are looked at, the lattice is changed by add/remove/del, and the history ends in the
+    # complete concept lattice of the table, whose labels are then judged (state left over from earlier label calls)
+    hrng = random.Random(seed * 1000003 + 405)
+    for rows in G.tables_upto(3, 3):
+        for how in ('build', 'readd'):
+            yield dict(stream='history', rows=rows, algo=None if how == 'build' else hrng.choice(ALGOS),
+                       hist=[how, hrng.randrange(1 << 30)])
+    if tier == 'thorough' or boost:
+        for rows in G.tables_upto(4, 4, cells=12):
+            if len(rows) <= 3 and len(rows[0]) <= 3:
+                continue
+            yield dict(stream='history-large', rows=rows, algo=hrng.choice(ALGOS),
+                       hist=[hrng.choice(('build', 'readd')), hrng.randrange(1 << 30)])
+    for _ in range((150 if tier == 'quick' else 3000) * (3 if boost else 1)):
+        rows = G.random_table(hrng, 7, 7)
+        for how in ('build', 'readd'):
+            yield dict(stream='history-random', rows=rows, algo=hrng.choice(ALGOS), hist=[how, hrng.randrange(1 << 30)])
 
 
 def _parse_label(label):
@@ -113,6 +152,63 @@ def impl(c):
         return {'err': 'NonTermination', 'msg': str(e)}
 
 
+def _look(L, r, LineVizNx, steps):
+    """some label call(s), as a user redrawing / inspecting the diagram would make"""
+    kind = r.choice(('draw', 'draw', 'ext_i', 'int_i', 'ext', 'int', 'one-label'))
+    steps.append('look:' + kind)
+    if kind == 'draw':
+        for i in range(len(L)):
+            LineVizNx.concept_lattice_label_func(i, L)
+    elif kind == 'one-label':
+        LineVizNx.concept_lattice_label_func(r.randrange(len(L)), L)
+    else:
+        f = {'ext_i': L.get_concept_new_extent_i, 'int_i': L.get_concept_new_intent_i,
+             'ext': L.get_concept_new_extent, 'int': L.get_concept_new_intent}[kind]
+        for i in (range(len(L)) if r.random() < 0.5 else [r.randrange(len(L))]):
+            f(i)
+
+
+def _history(L0, hist, LineVizNx):
+    """build the same complete lattice through a history of add/remove/del with label calls in between"""
+    from fcapy.lattice import ConceptLattice
+    how, seed = hist
+    r = random.Random(seed)
+    steps = []
+    cs = list(L0)
+    if how == 'build':
+        inner = cs[1:-1]
+        r.shuffle(inner)
+        L = ConceptLattice([cs[0], cs[-1]])
+        _look(L, r, LineVizNx, steps)
+        for k, x in enumerate(inner):
+            L.add(x)
+            steps.append('add')
+            if k + 1 < len(inner) and r.random() < 0.6:
+                _look(L, r, LineVizNx, steps)
+    else:
+        L = L0
+        _look(L, r, LineVizNx, steps)
+        for _ in range(r.randint(1, 2)):
+            inner_i = [i for i in range(len(L)) if i not in (L.top, L.bottom)]
+            if not inner_i:
+                break
+            i = r.choice(inner_i)
+            x = L[i]
+            if r.random() < 0.5:
+                del L[i]
+                steps.append('del')
+            else:
+                L.remove(x)
+                steps.append('remove')
+            if r.random() < 0.5:
+                _look(L, r, LineVizNx, steps)
+            L.add(x)
+            steps.append('add')
+            if r.random() < 0.3:
+                _look(L, r, LineVizNx, steps)
+    return L, steps
+
+
 def _impl(c):
     from fcapy.lattice import ConceptLattice
     from fcapy.visualizer.line_visualizers import LineVizNx
@@ -121,6 +217,10 @@ def _impl(c):
     K = make_context(rows, 'BinTableBitarray', OBJ[:n], ATT[:m])
     try:
         L = ConceptLattice.from_context(K, algo=c['algo'])
+        hist = c.get('hist')
+        steps = []
+        if hist and len(L) >= 3:
+            L, steps = _history(L, hist, LineVizNx)
         rng_ = range(len(L))
         out = dict(
             cs=[[ints(x.extent_i), ints(x.intent_i)] for x in L],
@@ -132,6 +232,7 @@ def _impl(c):
             newInt=[sorted(str(a) for a in L.get_concept_new_intent(i)) for i in rng_],
             anc=[sorted(ints(L.ancestors(i))) for i in rng_],
             labels=[LineVizNx.concept_lattice_label_func(i, L, True, 1000, True, 1000) for i in rng_],
+            steps=steps,
         )
         return out
     except Exception as e:
@@ -180,7 +281,7 @@ def nontrivial(c):
 
 
 def key(c):
-    return [c['rows'], c['algo']]
+    return [c['rows'], c['algo'], c.get('hist')]
 
 
 def _dups(rows):
@@ -194,6 +295,11 @@ def branch(c, io, rep):
         return [c['stream'], f'{algo}:err']
     dr, dc = _dups(c['rows'])
     out = [c['stream'], algo]
+    if c.get('hist'):
+        out.append('history:' + c['hist'][0] + (':with-look-between' if any(a.startswith('look') and 0 < k < len(io.get('steps', [])) - 1 for k, a in enumerate(io.get('steps', []))) else ''))
+        out.append('history-steps=%d' % min(len(io.get('steps', [])), 8))
+    if len(c['rows']) >= 11:
+        out.append('two-digit-object-indexes')
     if dr:
         out.append('duplicate-rows(shared node)')
     if dc:
@@ -208,7 +314,7 @@ def branch(c, io, rep):
 
 
 def signature(c, io, rep, v):
-    return f"C04:{c['algo'] or 'Lindig'}:{v.get('kind')}:{v.get('what', '?')}"
+    return f"C04:{c['algo'] or 'Lindig'}:{'history:' if c.get('hist') else ''}{v.get('kind')}:{v.get('what', '?')}"
 
 
 def shrink(c):
